@@ -454,6 +454,29 @@ func init() {
 		st.assume(mkOr(mkAnd(isNil, mkEq(v.L[".len"], mkInt(sortInt, 0))), mkAnd(mkNot(isNil), mkEq(v.L[".len"], mkInt(sortInt, 4)))))
 		return []Value{v}
 	})
+	reg("bufio.NewReader", "returns a non-nil reader", func(ex *Exec, st *State, c *ast.CallExpr, r *Value, a []Value) []Value {
+		sig := ex.info().TypeOf(c.Fun).(*types.Signature)
+		return []Value{scalarV(sig.Results().At(0).Type(), st.newRef())}
+	})
+	reg("(*crypto/tls.Conn).LocalAddr", "the project's TLS listeners are TCP listeners: returns a non-nil *net.TCPAddr", func(ex *Exec, st *State, c *ast.CallExpr, r *Value, a []Value) []Value {
+		sig := ex.info().TypeOf(c.Fun).(*types.Signature)
+		var at types.Type
+		for _, p := range ex.vc.pkgs {
+			if ip, ok := p.Imports["net"]; ok {
+				if o := ip.Types.Scope().Lookup("TCPAddr"); o != nil {
+					at = types.NewPointer(o.Type())
+				}
+			}
+		}
+		if at == nil {
+			unsupp("net.TCPAddr not found")
+		}
+		ref := st.newRef()
+		av := freshValue("tcpaddr", at.(*types.Pointer).Elem())
+		st.assumeValid(av)
+		st.writeObj(at.(*types.Pointer).Elem(), ref, av)
+		return []Value{ex.toInterface(scalarV(at, ref), sig.Results().At(0).Type(), st)}
+	})
 	// ---- byte streams: arbitrary data from the peer ----
 	{
 		mb := reg("encoding/binary.Read", "fills *data (fixed-size value or the elements of a slice) with arbitrary bytes from the stream, error arbitrary; ghost lastreadof(T) = the value read into a target of type T", func(ex *Exec, st *State, c *ast.CallExpr, r *Value, a []Value) []Value {
